@@ -612,7 +612,7 @@ def eval_model(rp):
 SINGLE = ['cacg', 'watson', 'vmf', 'gaussian', 'bingham']
 
 
-_OM = [0]
+_OM = {}
 
 
 def case_single(rng, tier, i, degen=False, which=None, force_finite=False):
@@ -660,9 +660,13 @@ def case_single(rng, tier, i, degen=False, which=None, force_finite=False):
         to = {'max_concentration': float(rng.choice([500, 50, 5] if force_finite else [np.inf, np.inf, 500, 50, 5]))}
     rp = {'fn': 'single', 'which': which, 'y': y, 'opts': o, 'trainer_opts': to, 'degenerate': mode,
           'pick_seed': int(rng.integers(0, 2 ** 31))}
-    _OM[0] += 1
-    if which == 'cacg' and _OM[0] % 2 == 0:
-        rp['omit'] = [['eigenvalue_floor'], ['eigenvalue_floor', 'covariance_norm', 'hermitize'], ['eigenvalue_floor', 'iterations']][(_OM[0] // 2) % 3]
+    if which == 'cacg':
+        # own counters for the cACG trainer, degenerate and regular data apart: the documented defaults are relied upon on
+        # every second case of either kind, in every run
+        key_ = 1 if mode else 2
+        _OM[key_] = _OM.get(key_, 0) + 1
+        if _OM[key_] % 2 == 1:
+            rp['omit'] = [['eigenvalue_floor'], ['eigenvalue_floor', 'covariance_norm', 'hermitize'], ['eigenvalue_floor', 'iterations']][(_OM[key_] // 2) % 3]
     label = 'fit %s D=%d N=%d lead=%s degenerate=%s trainer=%s opts=%s defaults=%s' % (which, D, N, lead, mode, to, mm.describe_options(o), rp.get('omit', []))
     fail, key, coq, raised, nt = eval_single(rp)
     return Case(label, coq=coq, pred_fail=fail, key=key, nontrivial=nt, digest_=core.digest(label, y, o.get('saliency')),
